@@ -19,9 +19,9 @@
      IoRcvA..IoRcvRel  received(): A requests_lock; R will_close; R close_when_flushed;
                      per item: completed request -> requests.append, len==1 -> add_task;
                      expecting head -> send_continue (IoScA, IoSc1, IoScF) or left pending
-     IoHW0..IoHW7    handle_write_event: R connected; handle_write(): R requests ->
-                     unlocked _flush_some (IoFlU, IoFlUR, IoFlUW) | R total >= send_bytes ->
-                     _flush_some_if_lockable (IoTry, IoFlL, IoNfy, IoRelL) | nothing;
+     IoHW1..IoHW7    handle_write_event: R connected; handle_write(): R requests == [] or
+                     R total >= send_bytes -> _flush_some_if_lockable (IoTry, IoFlL, IoNfy,
+                     IoRelL) | nothing;
                      R close_when_flushed, R total, W close_when_flushed, W will_close; R will_close
      IoHC..IoHCx     handle_close(): A outbuf_lock; total:=0, connected:=False, notify;
                      release; wasyncore.dispatcher.close (connected:=False, map delete)
@@ -54,11 +54,12 @@
    then nobody is stuck on a lock); [quiescent_parked], [quiescent_app] (Proof/ChanWakeInv.v)
    = the I/O thread sleeps in select and every worker is parked on queue_cv / outbuf_lock
    (resp. or sits inside the application).  [c05_ok] is the predicate of the property.
-   [taint] is ghost state marking the runs in which a worker may execute send_continue (F18).
+   [taint] is ghost state marking the runs in which the flush of a worker-side send_continue
+   raised (the finding of that name).
 
    ABSTRACTED.  Bytes are counts: [pend] is the number of bytes in the output
-   buffers (a FIFO by C17), [total] the attribute total_outbufs_len (they
-   differ only through the F18 race).  A request is a token ([nreq] =
+   buffers (a FIFO by C17), [total] the attribute total_outbufs_len (equal while connected:
+   Proof/ChanWakeL3.v).  A request is a token ([nreq] =
    len(requests)); parsing is C01/C02.  The size of one send() attempt
    (SO_SNDBUF) only bounds what ENV accepts, so it is dropped (ENV may accept
    any 1..pend).  current_outbuf_count / buffer rotation, last_activity,
@@ -97,7 +98,6 @@ Inductive site := SWr (n : Z) | SEnd.
 (* continuation of the I/O thread's handle_close *)
 Inductive hcont :=
 | HcRead (ww eof : bool)   (* from handle_read / recv; then the write half of the turn *)
-| HcFlush                  (* from send() inside the unlocked _flush_some of handle_write *)
 | HcWrite                  (* the last statement of handle_write *)
 | HcFlushL                 (* from send() inside _flush_some_if_lockable (outbuf_lock held) *)
 | HcSc (its : list item) (ww : bool). (* from send() inside send_continue in received() (both locks held) *)
@@ -120,7 +120,6 @@ Inductive iopc :=
 | IoScX1 | IoScX2
 | IoRcvRel (ww : bool)
 | IoHW1 | IoHW2 | IoTry
-| IoFlU | IoFlUR (n : Z) | IoFlUW (v : Z)
 | IoFlL | IoNfy | IoNfy2 | IoRelL | IoRelX | IoSetWc
 | IoHW3 | IoHW4 | IoHW5 | IoHW6 | IoHW7
 | IoHC (k : hcont) | IoHCb (k : hcont) | IoHCc (k : hcont) | IoHCd (k : hcont)
@@ -139,7 +138,7 @@ Inductive wpc :=
 | WWsF (sent : bool) | WWs6 | WWsP | WWsRel | WCdRel
 | WCl1 | WCl2 | WCl3 | WCl4
 | WK1 | WK3 | WK4 | WK5 | WK5b | WK6
-| WScA | WSc1 | WSc2 (t : Z) | WScF | WScRel | WScX | WScX2
+| WScA | WSc1 | WScF | WScRel | WScX | WScX2
 | WK7 | WEnd1 | WEnd2.
 
 Record state := mkSt {
@@ -161,9 +160,8 @@ Record state := mkSt {
   gone : bool;           (* the client closed its end *)
   io : iopc;
   ws : list wpc;
-  taint : bool           (* ghost: the head of an expecting request was received while requests <> [] or
-                            while sent_continue was still set (so a worker may execute send_continue:
-                            the F18 class) *)
+  taint : bool           (* ghost: the flush inside a worker's send_continue() raised on an open channel:
+                            service() is left by the exception, without its final pull_trigger *)
 }.
 
 Definition init (nw : nat) : state :=
@@ -271,7 +269,6 @@ Definition sel_enabled (s : state) (r w : bool) : bool :=
 Definition hc_return (c : cfg) (k : hcont) (s : state) : state :=
   match k with
   | HcRead ww _ => after_read c ww s
-  | HcFlush => goio s IoHW3
   | HcWrite => turn_start s
   | HcFlushL => goio s IoNfy
   | HcSc its ww => goio s (IoScRel its ww)
@@ -318,9 +315,9 @@ Definition step_io (c : cfg) (s : state) (ch : choice) : option (state * list la
   | IoRcvLoop (IHead :: its) ww, CIo =>
       (* expect_continue and headers_finished and not self.requests and not self.sent_continue *)
       if Nat.eqb (nreq s) 0 then
-        if sentc s then ret (goio (set_taint (set_pend100 s true) true) (IoRcvLoop its ww)) [LR AReq]
+        if sentc s then ret (goio (set_pend100 s true) (IoRcvLoop its ww)) [LR AReq]
         else ret (goio s (IoScA its ww)) [LR AReq]
-      else ret (goio (set_taint (set_pend100 s true) true) (IoRcvLoop its ww)) [LR AReq]
+      else ret (goio (set_pend100 s true) (IoRcvLoop its ww)) [LR AReq]
   | IoRcvLoop (IBody :: its) ww, CIo =>
       if pend100 s then
         if Nat.eqb (nreq s) 0 && negb (sentc s)
@@ -357,24 +354,12 @@ Definition step_io (c : cfg) (s : state) (ch : choice) : option (state * list la
   | IoScX2, CIo =>       (* wasyncore.read -> handle_error: repr(self) reads connected; handle_close *)
       ret (goio (set_rlock s None) (IoHC (HcRead false false))) [LRel LkR; LR AConn]
   (* handle_write_event (R connected) -> handle_write *)
-  | IoHW1, CIo => ret (goio s (if Nat.eqb (nreq s) 0 then IoFlU else IoHW2)) [LR AConn; LR AReq]
+  (* both branches flush through _flush_some_if_lockable since 8bcf05e *)
+  | IoHW1, CIo => ret (goio s (if Nat.eqb (nreq s) 0 then IoTry else IoHW2)) [LR AConn; LR AReq]
   | IoHW2, CIo => ret (goio s (if sb c <=? total s then IoTry else IoHW3)) [LR ATot]
   | IoTry, CIo =>
       if free (olock s) then ret (goio (set_olock s (Some TIO)) IoFlL) [LTry LkO]
       else ret (goio s IoHW3) [LTry LkO]
-  (* _flush_some without the lock (requests == []) *)
-  | IoFlU, CIo => if pend s <=? 0 then ret (goio s IoHW3) [] else None
-  | IoFlU, CIoSend r =>
-      if pend s <=? 0 then None else
-      if closed s then match r with SErr => ret (goio (set_wc s true) IoHW3) [LW AWc] | _ => None end else
-      match r with
-      | SOk n => if (1 <=? n) && (n <=? pend s) then ret (goio (set_pend s (pend s - n)) (IoFlUR n)) [LSend] else None
-      | SZero => ret (goio s IoHW3) [LSend]
-      | SDisc _ => ret (goio s (IoHC HcFlush)) [LSend]
-      | SErr => ret (goio (set_wc s true) IoHW3) [LSend; LW AWc]
-      end
-  | IoFlUR n, CIo => ret (goio s (IoFlUW (total s - n))) [LR ATot]
-  | IoFlUW v, CIo => ret (goio (set_total s v) IoFlU) [LW ATot]
   (* _flush_some_if_lockable *)
   | IoFlL, CIo => if pend s <=? 0 then ret (goio s IoNfy) [] else None
   | IoFlL, CIoSend r =>
@@ -510,8 +495,9 @@ Definition step_w (c : cfg) (s : state) (i : nat) (ch : choice) : option (state 
   (* send_continue(do_close=False) called from service() *)
   | WScA, CW _ =>
       if free (olock s) then ret (setw (set_olock s (Some me)) i WSc1) [LAcq LkO] else None
-  | WSc1, CW _ => ret (setw (set_pend s (pend s + cont_len)) i (WSc2 (total s))) [LR ATot]
-  | WSc2 t, CW _ => ret (setw (set_sentc (set_total s (t + cont_len)) true) i WScF) [LW ATot]
+  | WSc1, CW _ =>
+      ret (setw (set_sentc (set_pend (set_total s (total s + cont_len)) (pend s + cont_len)) true) i WScF)
+          [LR ATot; LW ATot]
   | WScF, CW _ => if pend s <=? 0 then ret (go WScRel) [] else None
   | WScF, CWSend _ r =>
       if pend s <=? 0 then None else
@@ -520,7 +506,7 @@ Definition step_w (c : cfg) (s : state) (i : nat) (ch : choice) : option (state 
       | SOk n => if (1 <=? n) && (n <=? pend s)
                  then ret (set_total (set_pend s (pend s - n)) (total s - n)) l_flush_ok else None
       | SZero | SDisc _ => ret (go WScRel) [LSend]   (* do_close=False since da3bf3a *)
-      | SErr => ret (go WScX) [LSend]
+      | SErr => ret (setw (set_taint s true) i WScX) [LSend]   (* not caught: service() is aborted *)
       end
   | WScRel, CW _ => ret (setw (set_olock s None) i WK7) [LRel LkO]
   | WScX, CW _ => ret (setw (set_olock s None) i WScX2) [LRel LkO]
